@@ -116,13 +116,15 @@ def main(argv):
         c.broken.append("build of the repo working tree / harnesses failed: " + blog[-800:])
         return c.finish(rule="build failed")
     c.proofs()
+    if c.tier == "thorough":
+        coqchk(c)
     drv, dlog = build_driver("C18")
     if drv is None:
         c.broken.append("extraction/driver build failed: " + dlog[-600:])
     hxf, hxc = hx_bin("hx_filters"), hx_bin("hx_cleaning")
     rng = c.rng
     thorough = c.tier == "thorough"
-    reps = 60 if not thorough else 600
+    reps = 150 if not thorough else 600
     tmp = tempfile.mkdtemp(prefix="c18-", dir=os.environ.get("VERIF_BUILD", "/var/tmp"))
     R = Runner(c, tmp)
     model_lines, model_expect = [], []      # driver protocol lines and (description, impl result) to compare
@@ -182,7 +184,10 @@ def main(argv):
         for r in range(reps * 2):
             data = gen_stream(rng)
             st, out, err = R.run("remove_invalid_utf8", [], data)
-            recs = py_records(data)
+            # this tool keeps well-formed lines UNCHANGED, a trailing CR included (no CR normalisation)
+            recs = data.split(b"\n")
+            if recs[-1] == b"":
+                recs.pop()
             c.count(("utf8", data), nontrivial=len(recs) > 0, bucket="remove_invalid_utf8/" + ("has-invalid" if any(not is_utf8(l) for l in recs) else "all-valid"))
             want = join([l for l in recs if is_utf8(l)])
             if st != 0 or out != want:
@@ -318,6 +323,8 @@ def main(argv):
                     model_lines.append("KEYS " + kv)
                     model_expect.append((None, "ok"))
                     expect("S %s %s" % (hexd(sub), hexd(data)), ("subtract_lines", "subtrahend=%r" % sub[:60], data), res[0], res[1])
+                    if len(sub) + len(data) < 3000:
+                        expect("SR %s %s" % (hexd(sub), hexd(data)), ("subtract_lines(complete model, Murmur keys from the C14 model)", "subtrahend=%r" % sub[:60], data), res[0], res[1])
                     i += 1
                 for (rem, data, kind), res in zip(cc_cases, cc_results):
                     names = klines[i][4:].split()
@@ -325,6 +332,8 @@ def main(argv):
                     model_lines.append("KEYS " + kv)
                     model_expect.append((None, "ok"))
                     expect("C %s %s" % (hexd(rem or b""), hexd(data)), ("commoncrawl_dedupe", "removal=%r" % (rem[:60] if rem else rem), data), res[0], res[1])
+                    if len(rem or b"") + len(data) < 3000:
+                        expect("CR %s %s" % (hexd(rem or b""), hexd(data)), ("commoncrawl_dedupe(complete model, Murmur keys from the C14 model)", "removal=%r" % (rem[:60] if rem else rem), data), res[0], res[1])
                     i += 1
                 # the model's UTF-8 predicate and StripSpaces against the library functions directly
                 probe = sorted(set(gen_line(rng, 5) for _ in range(400)) | set(PIECES))
@@ -339,7 +348,7 @@ def main(argv):
         letters = "abcdefghijklmnopqrstuvwxyz"
         sc_cases = []        # (args, (min_chars, run, sample, mci, minpunct, fieldspec, delim), data, kind)
 
-        def sc_args(mc=30, run=5, sample=200, mci="0.2", mp="0.01", fields="1-", delim=b"\t"):
+        def sc_args(mc=30, run=5, sample=200, mci="0.2", mp="0.01", fields="1-", delim=b"\t", scripts=(), ms="0.9"):
             a = []
             if mc != 30:
                 a += ["--min-chars", str(mc)]
@@ -355,7 +364,11 @@ def main(argv):
                 a += ["-f", fields]
             if delim != b"\t":
                 a += ["-d", delim.decode()]
-            return a, (mc, run, sample, mci, mp, fields, delim)
+            if scripts:
+                if ms != "0.9":
+                    a += ["--min-scripts", ms]
+                a += ["--scripts"] + list(scripts)          # multitoken: last
+            return a, (mc, run, sample, mci, mp, fields, delim, tuple(scripts), ms)
 
         def word_line(n, start=0):
             return "".join(letters[(start + i) % 26] for i in range(n)).encode()
@@ -374,7 +387,9 @@ def main(argv):
         for r in range(reps):
             mc = rng.choice([1, 3, 10, 30])
             fields, delim = rng.choice([("1-", b"\t"), ("1-", b"\t"), ("2", b"\t"), ("1,3", b"\t"), ("2-", b","), ("1-2", b"\t")])
-            a, o = sc_args(mc=mc, run=rng.choice([5, 5, 3]), mci=rng.choice(["0.2", "0.5", "1.0"]), sample=rng.choice([200, 10]), fields=fields, delim=delim)
+            scripts = rng.choice([(), (), ("Latin",), ("Cyrillic",), ("Latin", "Cyrillic")])
+            a, o = sc_args(mc=mc, run=rng.choice([5, 5, 3]), mci=rng.choice(["0.2", "0.5", "1.0"]), sample=rng.choice([200, 10]), fields=fields, delim=delim,
+                           scripts=scripts, ms=rng.choice(["0.9", "0.5", "1.0"]))
             lines = []
             for _ in range(rng.randrange(1, 10)):
                 nf = rng.randrange(1, 4)
@@ -390,7 +405,7 @@ def main(argv):
                     fs.append(f)
                 lines.append(delim.join(fs) + rng.choice([b"", b"", delim, b"\r"]))
             data = b"\n".join(lines) + (b"\n" if rng.random() < 0.8 else b"")
-            sc_cases.append((a, o, data, "random"))
+            sc_cases.append((a, o, data, "random+scripts" if scripts else "random"))
         sc_results = []
         for a, o, data, kind in sc_cases:
             st, out, err = R.run("simple_cleaning", a, data)
@@ -425,7 +440,7 @@ def main(argv):
                     if (l in outl) != (longest < run):
                         c.violation("threshold: simple_cleaning --character-run %d: a line whose longest run of a non-space character is %d was %s" % (run, longest, "kept" if l in outl else "dropped"), desc)
                         break
-            if kind == "random" and rng.random() < 0.3:
+            if kind.startswith("random") and rng.random() < 0.3:
                 split_check("simple_cleaning", a, data, "simple_cleaning")
         c.sample({"tool": "simple_cleaning", "args": sc_cases[-1][0], "stdin": repr(sc_cases[-1][2][:100])})
         if drv is not None:
@@ -440,8 +455,13 @@ def main(argv):
             model_expect.append((None, "ok"))
             specs = sorted(set(o[5] for _, o, _, _ in sc_cases))
             ranges = dict(zip(specs, run_lines_robust(hxc, ["R " + s for s in specs])))
+            names = sorted(set(o[7] for _, o, _, _ in sc_cases if o[7]))
+            codes = dict(zip(names, run_lines_robust(hxc, ["SN " + ",".join(n) for n in names]))) if names else {}
             for (a, o, data, kind), (st, out) in zip(sc_cases, sc_results):
-                expect("T %d %d %d %s %s %s %s %s" % (o[0], o[1], o[2], o[3], o[4], ranges[o[5]], o[6].hex(), hexd(data)), ("simple_cleaning", a, data), st, out)
+                if o[7]:
+                    expect("TS %d %d %d %s %s %s %s %s %s %s" % (o[0], o[1], o[2], o[3], o[4], o[8], codes[o[7]], ranges[o[5]], o[6].hex(), hexd(data)), ("simple_cleaning", a, data), st, out)
+                else:
+                    expect("T %d %d %d %s %s %s %s %s" % (o[0], o[1], o[2], o[3], o[4], ranges[o[5]], o[6].hex(), hexd(data)), ("simple_cleaning", a, data), st, out)
             # class level: SimpleCleaningFilter::operator() on single fields, real class vs model
             fields = sorted(set(f for _, o, data, _ in sc_cases[:40] for l in py_records(data) for f in l.split(o[6])))[:600]
             fl = ["F 5 5 200 0.2 0.01 " + hexd(f) for f in fields]
@@ -449,6 +469,18 @@ def main(argv):
             for l, r in zip(fl, fa):
                 model_lines.append(l)
                 model_expect.append((("SimpleCleaningFilter", l), r))
+            # ... and with --scripts (in_script / after_common_inherited < min_scripts, single precision, 0/0 = NaN passes)
+            for nm, cd in codes.items():
+                for ms in ("0.9", "0.5"):
+                    fs = ["FS 3 5 200 0.5 0.01 %s %s %s" % (ms, cd, hexd(f)) for f in fields[:250]]
+                    for l, r in zip(fs, run_lines_robust(hxc, fs)):
+                        model_lines.append(l)
+                        model_expect.append((("SimpleCleaningFilter --scripts " + ",".join(nm), l), r))
+
+        # ------------------------------------------------------------ memory safety (thorough): the library/class entry points under ASan/UBSan
+        if thorough and drv is not None and not c.violations:
+            asan_lines(c, "hx_filters", ["W " + " ".join(hexd(p) for p in probe), "S " + " ".join(hexd(p) for p in probe)] + klines[:200], "(IsUTF8, StripSpaces, MurmurHashNative on exact-size buffers)")
+            asan_lines(c, "hx_cleaning", fl[:400], "(SimpleCleaningFilter on exact-size buffers)")
 
         # ------------------------------------------------------------ run the models
         if drv is not None:
